@@ -28,7 +28,8 @@ PROPS = {
                    "twin runs of the real crate (hidden target, hidden multi, removed bar, non-tty stderr) are compared getter by getter.",
         level_note=COMMON_NOTE + "The non-tty case runs in a child process with stderr redirected to a file."),
     "C07": dict(
-        streams=[dict(cmd="C07")],
+        streams=[dict(cmd="C07"), dict(cmd="C07T", oracle_only=True)],
+        gen=[("tools/gen_atomics.py", "lean/IndicatifModel/Generated/Atomics.lean")],
         technique="Lean 4 theorems (wrapping/saturating arithmetic specs, permutation invariance of atomic increments) + differential correspondence",
         level_text="Position/length bookkeeping is proved against its arithmetic specification for every history, and the final position is proved independent of "
                    "the interleaving of atomic inc/dec steps; getters of the real crate are compared with the model after every call.",
